@@ -94,7 +94,10 @@ def _key(x):
         pi = canon(x.im) if not is_c(x.im) else ({(): x.im} if x.im else {})
         return (tuple(sorted(pr.items())), tuple(sorted(pi.items())), tuple(sorted((k, m) for k, (t, m) in x.den.items())))
     except NotPoly:
-        return ('id', id(x))
+        # structural key (NOT id(x): the ids of collected temporaries are re-used, and two different arguments must never share an atom)
+        def sx(t):
+            return str(t) if is_c(t) else t.sexpr()
+        return ('sx', sx(x.re), sx(x.im), tuple(sorted((str(k), m) for k, (t, m) in x.den.items())))
 
 
 def sqrt(x):
@@ -132,7 +135,7 @@ def sqrt(x):
     aq = Q(a)
     CTX.axiom(a >= 0, 'sqrt atom >= 0')
     cond = (aq * aq - x).is_zero_conds()
-    _ATOM_AX[('sqrt', k)] = (list(cond), set())
+    _ATOM_AX[('sqrt', k)] = (list(cond), {})
     _re_emit(('sqrt', k), 'sqrt atom squared equals its argument (asserted under the path condition of the path that takes the root)')
     _SQRT[k] = aq
     return aq
@@ -152,9 +155,10 @@ def _re_emit(key, note=None):
     sig = tuple(c.get_id() for c in pc)
     if sig in seen:
         return
-    seen.add(sig)
+    first = not seen
+    seen[sig] = pc          # keeps the conjuncts alive: z3 re-uses the ids of collected ASTs, and a recycled id must not be mistaken for a path already served
     for c in conds:
-        CTX.axiom(z3.Implies(z3.And(*pc), c) if pc else c, note if not seen - {sig} else None)
+        CTX.axiom(z3.Implies(z3.And(*pc), c) if pc else c, note if first else None)
 
 
 def _SinAbs(mon, s):
@@ -213,7 +217,7 @@ def _root_atom(a, n):
     p_, q_ = n.numerator, n.denominator
     lhs = power(vq, q_)
     rhs = power(a, p_)
-    _ATOM_AX[k] = (list((lhs - rhs).is_zero_conds()), set())
+    _ATOM_AX[k] = (list((lhs - rhs).is_zero_conds()), {})
     _re_emit(k)
     _POW[k] = vq
     return vq
